@@ -166,7 +166,9 @@ func run(r *vk.Run, c Case) (reachedCrash []bool) {
 		r.Violation("startup", err.Error(), wit())
 		return nil
 	}
-	_ = s.n.M.VerifPublishBlock(ctx) // genesis block
+	if c.ID%3 != 0 {
+		_ = s.n.M.VerifPublishBlock(ctx) // the first block is produced before any transaction arrives
+	} // else: transactions arrive and are reaped before the node produces its first block
 	hadCrash := false
 	takeBeforeSave := false // a crash fell between the durable removal of a batch from the queue and the first save of its block
 	for _, op := range c.Ops {
